@@ -1,3 +1,4 @@
 import TinyFlux.Audit.Tool
 import TinyFlux.Props.C10
+import TinyFlux.Props.C10State
 #audit TinyFlux.Props.C10
